@@ -23,13 +23,13 @@ OPTSETS = {
 }
 
 
-def _mk_kernel(n, oname, tiers, timeout, wmax=240, cell_hi=200):
+def _mk_kernel(n, oname, tiers, timeout, wmax=240, cell_hi=200, bv=None):
     opts = dict(OPTSETS[oname])
     if opts.get("ratios"):
         opts["ratios"] = opts["ratios"][:n]
 
     @symx("C01-kernel-%dcol-%s%s" % (n, oname, "" if wmax == 240 else "-w%d" % wmax), tiers=tiers, timeout=timeout, kind="S", functions=F_K, stubs=K_STUBS,
-          opts={"query_timeout_ms": 900000},
+          opts=dict({"query_timeout_ms": 900000}, **({"bv": bv} if bv else {})),
           bounds="%d flexible wrappable columns, cell measurements 0<=min<=max<=%d symbolic, column-width budget from the "
                  "structural minimum (1 cell + padding per column) to %d symbolic, options %r" % (n, cell_hi, wmax, opts),
           outside="more columns (4 columns did not finish in 600 s), no_wrap / fixed-width columns (not 'free to wrap')")
@@ -56,10 +56,11 @@ for _o in ["plain", "ratio-expand"]:
     _mk_kernel(3, _o, ("quick", "thorough"), 900)
 for _o in ["expand", "pad", "pad-collapse", "ratio-mixed-expand", "minwidth"]:
     _mk_kernel(3, _o, ("thorough",), 3000)
-# three padded expanding columns: with budgets up to 240 z3 answers `unknown` after its 900 s query timeout (non-linear integer
-# arithmetic from ratio_distribute over three symbolic widths); the smaller stated bound is decided
+# three padded expanding columns: with budgets up to 240 (and up to 60) z3 answers `unknown` after its 900 s query timeout
+# (non-linear integer arithmetic from ratio_distribute over three symbolic widths; a 24-bit bit-vector encoding did not finish
+# in 25 min either); the smaller stated bound is decided in about 3 minutes
 for _o in ["pad-expand", "pad-noedge-expand"]:
-    _mk_kernel(3, _o, ("thorough",), 2400, wmax=60, cell_hi=40)
+    _mk_kernel(3, _o, ("thorough",), 2400, wmax=24, cell_hi=16)
 
 
 # --- composition: real renderable trees, every width from the structural minimum (C+S) ---------------------------------
